@@ -33,6 +33,10 @@ add("C07","E1 enum","exploration",
     "Every modular add/sub/neg/double/mul form (ct, vartime, special-modulus, traits, assign; Uint<1,2,3,4,6,8,12,16>, BoxedUint 1..=20 limbs) and halving (through the Montgomery forms) for every modulus of a structured set incl. 1,2,3, 2^BITS-1, 2^(BITS-1)+-1, zero-high-limb moduli and every 2^BITS-c for c in L13: ALL residue pairs for p <= 64, otherwise the complete square of a residue set closed under x -> p-x and +-1. Result must be the canonical value in [0,p).",
     ASSUME, "bounded-exhaustive enumeration (true exhaustiveness over residues for small moduli) on the real code against BigUint % p", "DESIGN.md §3.C07")
 
+add("C13","E1 enum","exploration",
+    "Every signed add/sub/neg/mul form (checked, overflowing, wrapping, operators, Wrapping, Checked; Int x Int and Int x Uint, equal and mixed widths, split/widening/checked, squares), sign decomposition and reconstruction (incl. negative zero and |MIN|), resize / From<&Int>, from_i8..i128 over the complete pair products of the signed alphabet (MIN, MIN+1, -1, 0, 1, MAX, +-2^j, +-2^j-1 for every j, L9/L5 patterns) is compared with BigInt arithmetic: wrapping = result mod 2^BITS, overflow reported iff the result leaves [MIN, MAX].",
+    ASSUME, "bounded-exhaustive enumeration of operand shapes x forms on the real code against a BigInt reference model", "DESIGN.md §3.C13")
+
 NOT_YET = {}
 ALL = [f"C{i:02d}" for i in range(1,21)]
 import os, sys
